@@ -120,10 +120,16 @@ def judge_attached(ctx, cssutils, sel, rng, nsdecl):
         sheet2 = cssutils.parseString(head)
         sheet2.add(rule2)
         got_added = norm(P.p_selector(rule2.selectorList[0]))
+        # the same selector in a free white-space spelling, through a parser that drops comments
+        text_ws = G.Renderer(G.style_with('ws'), rng).selector(sel)
+        case['text_ws'] = text_ws
+        sheet3 = cssutils.CSSParser(parseComments=False).parseString(head + text_ws + '{top:0}')
+        rules3 = [x for x in sheet3.cssRules if x.type == x.STYLE_RULE]
+        got_nc = norm(P.p_selector(rules3[0].selectorList[0])) if rules3 else 'rule dropped'
     except Exception as e:
         ctx.violation('attached.exception', case, {'tb': core.short_tb(e)}, features=feats, site=core.raise_site(e))
         return
-    for name, g in (('parsed-in-sheet', got), ('detached', got_detached), ('after-add', got_added)):
+    for name, g in (('parsed-in-sheet', got), ('detached', got_detached), ('after-add', got_added), ('parsed-without-comment-parsing', got_nc)):
         if g != exp:
             ctx.violation('attached.' + name, case, {'diff': P.diff(g, exp)}, features=feats)
             return
